@@ -141,8 +141,45 @@ pub fn c02_c03_c11(ctx: &mut Ctx, which: &str) {
     }
 }
 
+/// C12: HasDiscoveries::matches against the meaning of each variant, on every subset of discoveries of
+/// every small property list (the call-site facts hold: distinct names, discoveries are property names).
+fn c12_matches(ctx: &mut Ctx) {
+    use std::collections::BTreeSet as Set;
+    let exps = [Expectation::Always, Expectation::Sometimes, Expectation::Eventually];
+    for nprops in 0..=3usize {
+        for ecode in 0..3usize.pow(nprops as u32) {
+            let es: Vec<Expectation> = (0..nprops).map(|k| exps[(ecode / 3usize.pow(k as u32)) % 3].clone()).collect();
+            let g = mk(1, &[0], &[vec![]], 1, es.iter().map(|e| (e.clone(), 0u16)).collect());
+            let props = stateright::Model::properties(&g);
+            for dmask in 0..(1u32 << nprops) {
+                let d: Set<&'static str> = (0..nprops).filter(|i| dmask & (1 << i) != 0).map(|i| NAMES[i]).collect();
+                let fail = |i: usize| es[i] != Expectation::Sometimes;
+                let mut variants: Vec<(String, HasDiscoveries, bool)> = vec![
+                    ("All".into(), HasDiscoveries::All, (0..nprops).all(|i| d.contains(NAMES[i]))),
+                    ("Any".into(), HasDiscoveries::Any, !d.is_empty()),
+                    ("AnyFailures".into(), HasDiscoveries::AnyFailures, (0..nprops).any(|i| fail(i) && d.contains(NAMES[i]))),
+                    ("AllFailures".into(), HasDiscoveries::AllFailures, (0..nprops).all(|i| !fail(i) || d.contains(NAMES[i]))),
+                ];
+                for smask in 0..8u32 {
+                    let s: Set<&'static str> = (0..3).filter(|i| smask & (1 << i) != 0).map(|i| NAMES[i]).collect();
+                    variants.push((format!("AllOf{:?}", s), HasDiscoveries::AllOf(s.clone()), s.iter().all(|n| d.contains(n))));
+                    variants.push((format!("AnyOf{:?}", s), HasDiscoveries::AnyOf(s.clone()), s.iter().any(|n| d.contains(n))));
+                }
+                for (vname, v, want) in variants {
+                    let case = format!("c12.matches:{}:props={:?}:disc={:?}", vname, es, d);
+                    if !ctx.want(&case) { continue; }
+                    let got = v.matches(&d, &props);
+                    let label = vname.split(|c: char| !c.is_alphabetic()).next().unwrap().to_lowercase();
+                    ctx.check(&case, &format!("c12-matches-{}", label), &["HD.matches.ensures.any", "HD.matches.ensures.all", "HD.matches.ensures.any-failures", "HD.matches.ensures.all-failures", "HD.matches.ensures.all-of", "HD.matches.ensures.any-of"], got == want, format!("{}", got), format!("{}", want));
+                }
+            }
+        }
+    }
+}
+
 /// C12: depth limit, state target, finish conditions.
 pub fn c12(ctx: &mut Ctx) {
+    c12_matches(ctx);
     for (gi, (n, inits, edges, bound)) in graphs(seed(), thorough()).into_iter().enumerate() {
         let g = mk(n, &inits, &edges, bound, vec![(Expectation::Sometimes, 0)]);
         let dist = g.dist();
